@@ -137,6 +137,11 @@ def _stores_into_fs(ff, flow):
                     inner = t.value
                     if isinstance(inner.slice, ast.Constant) and inner.slice.value == "fs":
                         out.append((st, t))
+                elif isinstance(t, ast.Subscript) and isinstance(t.value, ast.Name):
+                    # the daughters list taken into a local first: fs_list = d["fs"]; fs_list[i] = ...
+                    e = flow.expand(t.value)
+                    if isinstance(e, ast.Subscript) and isinstance(e.slice, ast.Constant) and e.slice.value == "fs":
+                        out.append((st, t))
     return out
 
 
